@@ -252,7 +252,16 @@ def run(ctx, res):
         r1, r3 = U.regions_of(g1), U.regions_of(g3)
         c1, c3 = b''.join(g1.lua.to_lines()), b''.join(g3.lua.to_lines())
         if r1 != r3 or c3.replace(b'\r', b' ').rstrip(b'\n') != c1.replace(b'\r', b' ').rstrip(b'\n'):
-            res.fail('C04:convert:' + hx(code)[:40], '.p8 -> .p8.png -> .p8 conversion changes code or data regions', {'code': hx(code)})
+            k2 = 'C04:convert:' + hx(code)[:40]
+            if r1 == r3:
+                # the same root causes as the known findings of the cart-level check, seen through the file layer
+                stored_compressed = len(compress.compress_code(c1)) < len(c1)
+                if not stored_compressed and b'\x00' in c1 and c3 == c1.split(b'\x00')[0] + (b'\n' if not c1.split(b'\x00')[0].endswith(b'\n') else b''):
+                    k2 = 'C04:raw-code-with-nul'
+                elif stored_compressed and (c1.endswith(compress.PICO8_FUTURE_CODE1) or c1.endswith(compress.PICO8_FUTURE_CODE2)
+                                            or c1.rstrip(b'\n').endswith(compress.PICO8_FUTURE_CODE1) or c1.rstrip(b'\n').endswith(compress.PICO8_FUTURE_CODE2)):
+                    k2 = 'C04:text-ends-with-compat-suffix'
+            res.fail(k2, '.p8 -> .p8.png -> .p8 conversion changes code or data regions', {'code': hx(code)})
         if i % 2:
             rows = refpng.decode(open(b, 'rb').read())[3]
             if any((x >> 2) != (y >> 2) for r1_, r2_ in zip(rows, lab[1]) for x, y in zip(r1_, r2_)):
